@@ -383,8 +383,26 @@ func init() {
 								continue
 							}
 							match := false
+							var isPassOf func(x, y ssa.Value, depth int) bool
+							isPassOf = func(x, y ssa.Value, depth int) bool {
+								if dc, ok := x.(*ssa.Call); ok && dc.Common().StaticCallee() != nil && dc.Common().StaticCallee().Name() == "decodePercentEncoded" && dc.Common().Args[0] == y {
+									return true
+								}
+								// the pass and its input are both carried round the loop: edge by edge
+								px, okx := x.(*ssa.Phi)
+								py, oky := y.(*ssa.Phi)
+								if okx && oky && px.Block() == py.Block() && depth < 2 {
+									for i := range px.Edges {
+										if !isPassOf(px.Edges[i], py.Edges[i], depth+1) {
+											return false
+										}
+									}
+									return len(px.Edges) > 0
+								}
+								return false
+							}
 							for _, pr := range [][2]ssa.Value{{bo.X, bo.Y}, {bo.Y, bo.X}} {
-								if dc, ok := pr[0].(*ssa.Call); ok && dc.Common().StaticCallee() != nil && dc.Common().StaticCallee().Name() == "decodePercentEncoded" && dc.Common().Args[0] == pr[1] {
+								if isPassOf(pr[0], pr[1], 0) {
 									match = true
 								}
 							}
